@@ -2496,6 +2496,15 @@ impl DnsIncoming {
         let mut name = "".to_string();
         let mut at_end = false;
 
+        // A name is a chain of segments: labels up to a zero octet or a pointer.
+        // `seg_start` is where the current segment began, and the segment must
+        // end at or before `seg_limit`. Every pointer has to lead to a segment
+        // that lies completely before the segment it was read in (a "prior
+        // occurrence", RFC 1035 section 4.1.4), hence followed segments never
+        // overlap and decoding always terminates.
+        let mut seg_start = start_offset;
+        let mut seg_limit = data.len();
+
         // From RFC1035:
         // "...Domain names in messages are expressed in terms of a sequence of labels.
         // Each label is represented as a one octet length field followed by that
@@ -2507,10 +2516,11 @@ impl DnsIncoming {
         // - a pointer
         // - a sequence of labels ending with a pointer"
         loop {
-            if offset >= data.len() {
+            if offset >= seg_limit {
                 return Err(Error::Msg(format!(
-                    "read_name: offset: {} data len {}. DnsIncoming: {:?}",
+                    "read_name: offset: {} limit {} data len {}. DnsIncoming: {:?}",
                     offset,
+                    seg_limit,
                     data.len(),
                     self
                 )));
@@ -2534,11 +2544,13 @@ impl DnsIncoming {
                     offset += 1;
                     let ending = offset + length as usize;
 
-                    // Never read beyond the whole data length.
-                    if ending > data.len() {
+                    // Never read beyond the whole data length, or into the
+                    // segment that pointed here.
+                    if ending > seg_limit {
                         return Err(Error::Msg(format!(
-                            "read_name: ending {} exceeds data length {}",
+                            "read_name: ending {} exceeds limit {} (data length {})",
                             ending,
+                            seg_limit,
                             data.len()
                         )));
                     }
@@ -2551,7 +2563,7 @@ impl DnsIncoming {
                 0xC0 => {
                     // Message compression.
                     // See https://datatracker.ietf.org/doc/html/rfc1035#section-4.1.4
-                    let slice = &data[offset..];
+                    let slice = &data[offset..seg_limit];
                     if slice.len() < U16_SIZE {
                         return Err(Error::Msg(format!(
                             "read_name: u16 slice len is only {}",
@@ -2559,11 +2571,11 @@ impl DnsIncoming {
                         )));
                     }
                     let pointer = (u16_from_be_slice(slice) ^ 0xC000) as usize;
-                    if pointer >= start_offset {
+                    if pointer >= seg_start {
                         // Error: could trigger an infinite loop.
                         return Err(Error::Msg(format!(
                             "Invalid name compression: pointer {} must be less than the start offset {}",
-                            &pointer, &start_offset
+                            &pointer, &seg_start
                         )));
                     }
 
@@ -2572,6 +2584,8 @@ impl DnsIncoming {
                         self.offset = offset + U16_SIZE;
                         at_end = true;
                     }
+                    seg_limit = seg_start;
+                    seg_start = pointer;
                     offset = pointer;
                 }
                 _ => {
